@@ -1,6 +1,7 @@
 package drive
 
 import (
+	"errors"
 	"fmt"
 	"os"
 	"strings"
@@ -99,6 +100,11 @@ func streamEngine(t *testing.T, o *Out, p EngProfile) {
 	for i := 0; i < n; i++ {
 		c := genEngCase(r, p)
 		if err := env.prepare(c, o); err != nil {
+			if errors.Is(err, errLeak) {
+				id++
+				o.Emit("engine", fmt.Sprintf("leak%d", id), c.Payload(), "res=network-leak/none\tcalls=0\topl=0\tx_detail="+strings.ReplaceAll(err.Error(), "\t", " "), true)
+				continue
+			}
 			t.Fatalf("prepare: %v", err)
 		}
 		if p.OtherNet {
